@@ -120,6 +120,10 @@ func (m *poolMon) replay() map[string]any {
 }
 
 func (m *poolMon) violate(prop, class, site, detail string) {
+	if m.prop == "C04" && prop == "C01" {
+		// the daemon-level run decides the ledger clauses over RPC replies as its own
+		prop, class = "C04", "C04.ledger-"+strings.TrimPrefix(class, "C01.")
+	}
 	if prop != m.prop && !(m.prop == "ALL") {
 		// violations of sibling properties observed by this run are counted, not decided here
 		m.r.Count("sibling:"+class, 1)
